@@ -857,6 +857,15 @@ pub fn cmd_c10(args: &Args) -> Report {
     let cases = args.cases(40_000, 800_000);
     let max_events = args.extra_u64("events").unwrap_or(if args.thorough() { 600 } else { 150 }) as usize;
     'cases: for i in 0..cases {
+        if i % 25 == 0 {
+            // messages injected into a (half of the time paused) net simulation through the runtime handle are events
+            // added from outside like any other: accepted at / after the reported time, delivered at their timestamp
+            rep.count("net_injection_probes", 1);
+            let findings: Vec<Finding> = net_injection_probe(&mut rng).into_iter().map(|(_, kind, detail)| ("C10", kind, detail)).collect();
+            if !report(&mut rep, "C10", findings, &json!({"driver": "desmon", "sub": "c10", "net_injection_probe": true, "note": "re-run the check with the same seed"})) {
+                break;
+            }
+        }
         let small = rng.chance(1, 3);
         let size = if small { 1 + rng.usize_below(7) } else { 2 + rng.usize_below(max_events) };
         let (tie_heavy, nonzero_start) = (rng.chance(2, 3), rng.chance(1, 4));
